@@ -796,6 +796,8 @@ func verdict(t failer, w *Workload, o *outcome) []string {
 				unknownSigs = append(unknownSigs, u[1:i])
 			}
 		}
+		// replayable description of the case (schedule-dependent: the report text below is the actual reproduction)
+		evid.R.FailCase(w.Kind, w)
 		t.Fatalf("C20 violated (%d finding(s)) by workload %s\n\n%s\n\nC20-SIGNATURES: %s", len(unknown), wj, strings.Join(unknown, "\n\n-----\n\n"), strings.Join(unknownSigs, " | "))
 	}
 	var sigs []string
